@@ -193,6 +193,21 @@ def run(res, tier):
     else:
         m = 200000
         units = [(f, o, list(VECTORS), SALTS, m) for f in FAMILIES for o in OFFSETS]
+    # salts that a tidying step (strip, case fold, whitespace collapse, NFC / NFKC, numeric coercion) would identify are
+    # different salts: every group of such near-twins, pairwise independent
+    from ..enum import collide
+
+    for g in collide.NEAR_TWINS:
+        ok = []
+        for s_ in dict.fromkeys(g):
+            ast = ("prog", "e", s_, ("uid",), ("ret", (("g0", "1"), ("g1", "1"))))
+            try:
+                if s_ != "" and rp.classify(rp.render(ast)) == ("accept", ast):
+                    ok.append(s_)
+            except ValueError:
+                pass
+        for fam in (["int"] if tier == "quick" else ["int", "uuid", "email"]):
+            units.append((fam, 0, ["123"], ok, m if tier == "quick" else 50000))
     for w in pmap(_work, permuted(units, "c04"), chunk=1):
         res.merge_worker(w)
     res.set("distinct_nontrivial", len(res.outcomes))
